@@ -359,3 +359,6 @@ func short(v interface{}) string {
 	}
 	return s
 }
+
+// attrValue is attr.Value (kept local to avoid import cycles in helpers).
+type attrValue = attr.Value
